@@ -1143,3 +1143,206 @@ func ruleEOFJudgedByParse(c *Ctx, rule string) {
 		c.Undecided(rule, "subjects", "no end-of-input test found in the parser")
 	}
 }
+
+// ---- round 4 ---------------------------------------------------------------------------------------------
+
+// ruleNoRedundantSwitchBreak: an unlabelled break that ends a case clause only leaves the switch. When the
+// switch sits in a loop the author of such a break meant the loop (Go is not C): the loop goes on with the
+// state the arm was supposed to stop at.
+func ruleNoRedundantSwitchBreak(c *Ctx, rule string, pkgs ...string) {
+	c.Rule(rule, "no `break` that only leaves a switch inside a loop: an unlabelled break as the last statement of a case clause has no effect on the switch; inside a for loop it is the signature of `break` meant for the loop (an if-chain rewritten as a switch) — the torn-record / failed-row arm then falls out of the switch and the loop continues with the record or row it was supposed to stop at")
+	w := c.W
+	n, bad := 0, 0
+	for _, name := range w.SortedFuncNames() {
+		f := w.Funcs[name]
+		okPkg := false
+		for _, p := range pkgs {
+			if f.Pkg == w.Pkgs[p] {
+				okPkg = true
+			}
+		}
+		if !okPkg {
+			continue
+		}
+		idx := 0
+		var visit func(n ast.Node, inLoop bool)
+		visit = func(nd ast.Node, inLoop bool) {
+			ast.Inspect(nd, func(x ast.Node) bool {
+				if x == nil || x == nd {
+					return true
+				}
+				switch y := x.(type) {
+				case *ast.FuncLit:
+					visit(y.Body, false)
+					return false
+				case *ast.ForStmt:
+					visit(y.Body, true)
+					return false
+				case *ast.RangeStmt:
+					visit(y.Body, true)
+					return false
+				case *ast.SwitchStmt, *ast.TypeSwitchStmt, *ast.SelectStmt:
+					var body *ast.BlockStmt
+					switch z := y.(type) {
+					case *ast.SwitchStmt:
+						body = z.Body
+					case *ast.TypeSwitchStmt:
+						body = z.Body
+					case *ast.SelectStmt:
+						body = z.Body
+					}
+					n++
+					for _, cl := range body.List {
+						var stmts []ast.Stmt
+						switch cc := cl.(type) {
+						case *ast.CaseClause:
+							stmts = cc.Body
+						case *ast.CommClause:
+							stmts = cc.Body
+						}
+						if len(stmts) > 0 {
+							if br, ok := stmts[len(stmts)-1].(*ast.BranchStmt); ok && br.Tok == token.BREAK && br.Label == nil && inLoop && len(stmts) > 1 {
+								idx++
+								bad++
+								c.Fail(rule, f.Name+"|switch-break#"+itoa(idx), br.Pos(), "%s: this break ends a case clause of a switch inside a loop — it leaves the switch only, the loop carries on", f.Name)
+							}
+						}
+						for _, st := range stmts {
+							visit(st, inLoop)
+						}
+					}
+					return false
+				}
+				return true
+			})
+		}
+		visit(f.Decl.Body, false)
+	}
+	if bad == 0 {
+		c.OK(rule, "switches|no-redundant-break", token.NoPos, n, "%d switch/select statements examined, none ends a case in a loop with a bare break", n)
+	}
+}
+
+// ruleNoDeadStores: a value stored into a local or parameter that no path reads afterwards.
+func ruleNoDeadStores(c *Ctx, rule string, pkgs ...string) {
+	c.Rule(rule, "no lost update through a dead store: an assignment `x = e` to a local variable or by-value parameter whose value no path reads afterwards (before x is overwritten or the function returns) records an update nowhere — typically a root/page/batch handle that a caller or the next loop iteration was meant to see (a helper assigning its own parameter)")
+	w := c.W
+	n, bad := 0, 0
+	for _, name := range w.SortedFuncNames() {
+		f := w.Funcs[name]
+		okPkg := false
+		for _, p := range pkgs {
+			if f.Pkg == w.Pkgs[p] {
+				okPkg = true
+			}
+		}
+		if !okPkg {
+			continue
+		}
+		info := f.Pkg.TypesInfo
+		// variables captured by closures or address-taken are out of scope
+		skip := map[types.Object]bool{}
+		ast.Inspect(f.Decl.Body, func(x ast.Node) bool {
+			switch y := x.(type) {
+			case *ast.FuncLit:
+				ast.Inspect(y.Body, func(z ast.Node) bool {
+					if id, ok := z.(*ast.Ident); ok {
+						if o := info.ObjectOf(id); o != nil && o.Pos() < y.Pos() {
+							skip[o] = true
+						}
+					}
+					return true
+				})
+			case *ast.UnaryExpr:
+				if y.Op == token.AND {
+					if id, ok := ast.Unparen(y.X).(*ast.Ident); ok {
+						skip[info.ObjectOf(id)] = true
+					}
+				}
+			}
+			return true
+		})
+		// named results are read by `return`
+		if f.Decl.Type.Results != nil {
+			for _, fl := range f.Decl.Type.Results.List {
+				for _, nm := range fl.Names {
+					skip[info.ObjectOf(nm)] = true
+				}
+			}
+		}
+		g := f.Graph()
+		idx := 0
+		for _, b := range g.c.Blocks {
+			if !g.Reachable(b) {
+				continue
+			}
+			for i, nd := range b.Nodes {
+				as, ok := nd.(*ast.AssignStmt)
+				if !ok || as.Tok != token.ASSIGN || len(as.Lhs) != 1 || len(as.Rhs) != 1 {
+					continue
+				}
+				id, ok := ast.Unparen(as.Lhs[0]).(*ast.Ident)
+				if !ok || id.Name == "_" {
+					continue
+				}
+				v, ok := info.ObjectOf(id).(*types.Var)
+				if !ok || v.IsField() || v.Parent() == v.Pkg().Scope() || skip[v] {
+					continue
+				}
+				// only handles to pages, trees, batches and the like: pointer, slice, map or interface typed
+				switch v.Type().Underlying().(type) {
+				case *types.Pointer, *types.Slice, *types.Map:
+				default:
+					continue
+				}
+				// self-append and re-slicing read the variable
+				n++
+				start := Loc{b, i}
+				read := false
+				g.Forward(&start, nil, func(nn ast.Node, at Loc) Verdict {
+					uses, redefines := false, false
+					ast.Inspect(nn, func(z ast.Node) bool {
+						if zi, ok := z.(*ast.Ident); ok && info.ObjectOf(zi) == types.Object(v) {
+							uses = true
+						}
+						return true
+					})
+					if a2, ok := nn.(*ast.AssignStmt); ok && len(a2.Lhs) == 1 {
+						if l, ok := ast.Unparen(a2.Lhs[0]).(*ast.Ident); ok && info.ObjectOf(l) == types.Object(v) {
+							// plain overwrite that does not read the variable on its right
+							rhsUses := false
+							for _, r := range a2.Rhs {
+								ast.Inspect(r, func(z ast.Node) bool {
+									if zi, ok := z.(*ast.Ident); ok && info.ObjectOf(zi) == types.Object(v) {
+										rhsUses = true
+									}
+									return true
+								})
+							}
+							if !rhsUses {
+								redefines = true
+								uses = false
+							}
+						}
+					}
+					if uses {
+						read = true
+						return Hit
+					}
+					if redefines {
+						return Cut
+					}
+					return Go
+				}, nil)
+				if !read {
+					idx++
+					bad++
+					c.Fail(rule, f.Name+"|dead-store|"+v.Name()+"#"+itoa(idx), as.Pos(), "%s assigns %s = %s and nothing reads it afterwards: the update is lost (a parameter is a copy — the caller, and the next loop iteration, still hold the old value)", f.Name, v.Name(), f.Src(as.Rhs[0]))
+				}
+			}
+		}
+	}
+	if bad == 0 {
+		c.OK(rule, "stores|all-read", token.NoPos, n, "%d stores to pointer/slice/map typed locals examined, each is read on some path afterwards", n)
+	}
+}
